@@ -750,7 +750,8 @@ def build_pool():
     return pool
 
 
-FOREIGN0 = [[['tuple', []], ['tuple', [I(7)]], I(5)], [['tuple', [['tuple', []], I(1)]], ['tuple', [I(1), I(2)]], ['tuple', []]]]
+FOREIGN0 = [[['tuple', []], ['tuple', [I(7)]], I(5)], [['tuple', [['tuple', []], I(1)]], ['tuple', [I(1), I(2)]], ['tuple', []]],
+            [['cont', 'while_cond', ['cont', 'quit', 7], ['cont', 'quit', 7], ['cont', 'quit', 7]], I(3)]]
 
 
 def h_enabled(pool):
@@ -774,6 +775,10 @@ def h_enabled(pool):
             for j in (1, 3, 0):
                 if j < n and j in vals and (j < i or not isinstance(pool[j], VmTuple)):      # never build a cyclic value
                     ev.append(['t_append', i, j])
+    from pytoniq_core.tlb.vm_stack import VmCont
+    for i in vals:
+        if isinstance(pool[i], VmCont) and getattr(pool[i], 'type_', '') == 'vmc_while_cond' and getattr(getattr(pool[i], 'cond', None), 'type_', '') == 'vmc_quit':
+            ev.append(['c_edit', i])                # the caller edits ONE child of a continuation it got from the parser
     from pytoniq_core.boc import Builder, Slice
     for i in vals:
         if isinstance(pool[i], Builder) and len(pool[i].refs) < 4:
@@ -815,6 +820,15 @@ def h_apply(pool, ev):
     if op == 't_poison':
         pool[ev[1]].list[0] = 1 << 256      # outside the 257-bit signed range
         return 'ok'
+    if op == 'c_edit':
+        c = pool[ev[1]]
+        before = lv_lib(c)
+        c.cond.exit_code = (c.cond.exit_code + 1) % 1000
+        after = lv_lib(c)
+        want = before[:2] + (('cont', 'quit', c.cond.exit_code),) + before[3:]
+        if after != want:
+            raise ChildAliased(f'editing the cond child of a parsed while_cond continuation changed other parts of it too: {str(after)[:200]} instead of {str(want)[:200]}')
+        return 'ok'
     if op == 'b_store_ref':
         from pytoniq_core.boc import Builder
         pool[ev[1]].store_ref(Builder().store_uint(0xC17, 12).end_cell())
@@ -845,7 +859,11 @@ def h_canon(pool):
 
 
 H_MEMO = {}
-CALLER_EDITS = ('t_append', 't_pop', 't_edit', 't_poison', 'b_store_ref', 'b_store_bits', 's_load_bit')
+class ChildAliased(Exception):
+    pass
+
+
+CALLER_EDITS = ('c_edit', 't_append', 't_pop', 't_edit', 't_poison', 'b_store_ref', 'b_store_bits', 's_load_bit')
 
 
 def unserialisable(c):
@@ -868,6 +886,8 @@ def run_history(rec, hist, check=True):
             obs = h_apply(pool, ev)
         except RecursionError as e:
             return pool, ('raises:' + ev[0], f'step {step} {ev}: raised RecursionError')
+        except ChildAliased as e:
+            return pool, ('aliased:' + ev[0], f'step {step} {ev}: {e}')
         except Exception as e:
             if ev[0] in CALLER_EDITS:
                 raise
